@@ -1,11 +1,20 @@
 import Driver.Common
 import Sourmash.Model.HLL
 import Sourmash.Model.HLLFloat
+import Sourmash.Model.Murmur
+import Sourmash.Spec.Kmers
 /-! C18 driver.  Model column: the integer model (`counts`, `five`, the `…G` bookkeeping of
 `Model/HLLFloat.lean`) instantiated with the binary64 transcription of the secant iteration
 (`Hll.F.mleIter`) — compared bit for bit with the crate.  Spec column: what the property demands
-and a finite run can decide: `0` for an empty sketch, `within` the 6σ+1 window, `consistent`,
-`same`. -/
+and a finite run can decide: `0` for an empty sketch, `within` the window (6σ+1 for p ≥ 8, wider below), `consistent`,
+`same`.
+
+Every estimate op (`card`, `cardint`, `cardffi`, `bound`, `joint`, `api`, `apiffi`, `consist`,
+`jbound`) is answered from the CURRENT registers of the model sketch and, for the windows, the
+CURRENT true size of the union of everything the sketch received — the histories ask them before
+and after every kind of mutation on the same object.  `fresh` / `freshj` (the object's estimates
+against those of a sketch freshly loaded from its saved bytes) are `same` by definition in the
+model, where an estimate is a function of the registers; the spec column demands `same`. -/
 open Driver Hll
 
 def splitmix64 (i : UInt64) : UInt64 :=
@@ -18,6 +27,15 @@ def splitmix64 (i : UInt64) : UInt64 :=
 structure Sk where
   h : H
   ranges : List (Nat × Nat)
+  /-- further members of the true set (k-mer hashes of `addseq`): ascending, distinct, taken to be
+      outside the splitmix64 stream -/
+  extra : List Nat := []
+
+def sortedSet (l : List Nat) : List Nat :=
+  let a := l.toArray.qsort (· < ·)
+  (a.foldl (fun (acc : List Nat) x => match acc with
+    | y :: _ => if x == y then acc else x :: acc
+    | [] => [x]) []).reverse
 
 /-- size of a union of index ranges -/
 def unionSize (ranges : List (Nat × Nat)) : Nat :=
@@ -27,7 +45,7 @@ def unionSize (ranges : List (Nat × Nat)) : Nat :=
     let lo := max r.1 acc.2
     if r.2 > lo then (acc.1 + (r.2 - lo), r.2) else acc) (0, 0)).1
 
-def Sk.n (s : Sk) : Nat := unionSize s.ranges
+def Sk.n (s : Sk) : Nat := unionSize s.ranges + s.extra.length
 
 /-- `add_hash(splitmix64(i))` for `start ≤ i < start + n` on top of `h` -/
 def addRange (h : H) (start n : Nat) : H := Id.run do
@@ -63,20 +81,47 @@ def within (est truth scale p mult slack : Nat) : Bool :=
     let rhs := mult * 104 * scale
     if lhs ≥ 2 ^ 128 then false else if rhs * rhs ≥ 2 ^ 128 then true else decide (lhs ≤ rhs * rhs)
 
+/-- window multipliers per precision (see harness/src/bin/c18.rs: the estimator's error is heavy-tailed
+    for 16 / 32 registers, the small precisions get wider windows) -/
+def cardMult (p : Nat) : Nat := if p == 4 then 14 else if p == 5 then 11 else if p == 6 || p == 7 then 8 else 6
+def jointMult (p : Nat) : Nat := if p == 4 then 16 else if p == 5 then 13 else 10
+
 def overlap (a b : Sk) : Nat × Nat :=
-  let union := unionSize (a.ranges ++ b.ranges)
+  let union := unionSize (a.ranges ++ b.ranges) + (sortedSet (a.extra ++ b.extra)).length
   (a.n + b.n - union, union)
 
 def stepC18 (st : St) (ws : List String) : St × Resp :=
   let which (w : String) : Option Sk := if w == "A" then st.a else st.b
   match ws with
   | "case" :: _ => (st, { model := "ok" })
-  | ["add", w, start, n] =>
-    -- more `add_hash` calls on a sketch that already has content
+  | ["addseq", w, _api, dna] =>
+    -- `add_sequence(dna, false)` / `hll_add_sequence`: `add_hash` of every canonical 21-mer hash
+    -- (`Spec/Kmers.lean`; the generator writes valid DNA only); the true set grows by the distinct ones
     match which w with
     | some s =>
       let st := if w == "A" then { st with a := none } else { st with b := none }
-      let s : Sk := { h := addRange s.h start.toNat! n.toNat!, ranges := s.ranges ++ [(start.toNat!, n.toNat!)] }
+      let hs := ((Kmers.evHashes (Kmers.dnaStream 21 42 false dna.toUTF8.toList)).filter (· != 0)).map (·.toNat)
+      let s : Sk := { s with h := s.h.addMany hs, extra := sortedSet (s.extra ++ hs) }
+      let nz := nzOf s.h
+      (if w == "A" then { st with a := some s } else { st with b := some s }, { model := s!"nz={nz}" })
+    | none => (st, { model := "none" })
+  | [op, w, start, n] =>
+    if !(op == "add" || op == "addmany" || op == "addffi") then
+      -- `A <p> <start> <n>` / `B <p> <start> <n>`: a new sketch
+      let (w, p) := (op, w)
+      let sk := build p.toNat! start.toNat! n.toNat!
+      let nz := match sk with
+        | some s => nzOf s.h
+        | none => 0
+      if w == "A" then ({ st with a := sk }, { model := s!"nz={nz}" })
+      else if w == "B" then ({ st with b := sk }, { model := s!"nz={nz}" })
+      else (st, { model := "bad-op" })
+    else
+    -- more `add_hash` / `add_many` / `hll_add_hash` calls on a sketch that already has content
+    match which w with
+    | some s =>
+      let st := if w == "A" then { st with a := none } else { st with b := none }
+      let s : Sk := { s with h := addRange s.h start.toNat! n.toNat!, ranges := s.ranges ++ [(start.toNat!, n.toNat!)] }
       let nz := nzOf s.h
       (if w == "A" then { st with a := some s } else { st with b := some s }, { model := s!"nz={nz}" })
     | none => (st, { model := "none" })
@@ -86,7 +131,7 @@ def stepC18 (st : St) (ws : List String) : St × Resp :=
     match which w with
     | some s =>
       let st := if w == "A" then { st with a := none } else { st with b := none }
-      let s : Sk := { h := addRange s.h start.toNat! n.toNat!, ranges := s.ranges ++ [(start.toNat!, n.toNat!)] }
+      let s : Sk := { s with h := addRange s.h start.toNat! n.toNat!, ranges := s.ranges ++ [(start.toNat!, n.toNat!)] }
       let nz := nzOf s.h
       (if w == "A" then { st with a := some s } else { st with b := some s }, { model := s!"nz={nz}" })
     | none => (st, { model := "none" })
@@ -100,24 +145,14 @@ def stepC18 (st : St) (ws : List String) : St × Resp :=
         (if w == "A" then { st with a := some s } else { st with b := some s }, { model := s!"nz={nzOf h}" })
       | .error _ => (st, { model := "err" })
     | none => (st, { model := "none" })
-  | ["mrg", w] =>
-    let (dst, src) := if w == "A" then (st.a, st.b) else (st.b, st.a)
-    match dst, src with
-    | some d, some s =>
-      match d.h.merge s.h with
-      | .ok h =>
-        let d : Sk := { h := h, ranges := d.ranges ++ s.ranges }
-        (if w == "A" then { st with a := some d } else { st with b := some d }, { model := s!"nz={nzOf h}" })
-      | .error _ => (st, { model := "err" })
-    | _, _ => (st, { model := "none" })
-  | [w, p, start, n] =>
-    let sk := build p.toNat! start.toNat! n.toNat!
-    let nz := match sk with
-      | some s => nzOf s.h
-      | none => 0
-    if w == "A" then ({ st with a := sk }, { model := s!"nz={nz}" })
-    else if w == "B" then ({ st with b := sk }, { model := s!"nz={nz}" })
-    else (st, { model := "bad-op" })
+  | ["fresh", w] =>
+    match which w with
+    | some _ => (st, { model := "same", spec := "same" })
+    | none => (st, { model := "none" })
+  | ["cardffi", w] =>
+    match which w with
+    | some s => (st, { model := toString (F.cardinality s.h), spec := if s.n == 0 then "0" else "-" })
+    | none => (st, { model := "none" })
   | ["hist", w] =>
     match which w with
     | some s => (st, { model := showNats (counts s.h.regs s.h.q).toList })
@@ -135,9 +170,20 @@ def stepC18 (st : St) (ws : List String) : St × Resp :=
   | ["bound", w] =>
     match which w with
     | some s =>
-      let ok := within (F.cardinality s.h) s.n s.n s.h.p 6 1
+      let ok := within (F.cardinality s.h) s.n s.n s.h.p (cardMult s.h.p) 1
       (st, { model := if ok then "within" else "outside", spec := "within" })
     | none => (st, { model := "none" })
+  | [op, w] =>
+    if !(op == "mrg" || op == "mrgffi") then (st, { model := "bad-op" }) else
+    let (dst, src) := if w == "A" then (st.a, st.b) else (st.b, st.a)
+    match dst, src with
+    | some d, some s =>
+      match d.h.merge s.h with
+      | .ok h =>
+        let d : Sk := { h := h, ranges := d.ranges ++ s.ranges, extra := sortedSet (d.extra ++ s.extra) }
+        (if w == "A" then { st with a := some d } else { st with b := some d }, { model := s!"nz={nzOf h}" })
+      | .error _ => (st, { model := "err" })
+    | _, _ => (st, { model := "none" })
   | [op] =>
     match st.a, st.b with
     | some a, some b =>
@@ -145,6 +191,9 @@ def stepC18 (st : St) (ws : List String) : St × Resp :=
       if op == "joint" then (st, { model := s!"a={t.1} b={t.2.1} i={t.2.2}" })
       else if op == "api" then
         (st, { model := s!"u={unionG F.mleIter a.h b.h} i={intersectionG F.mleIter a.h b.h} s={fbits (similarityG F.mleIter a.h b.h)} c={fbits (containmentG F.mleIter a.h b.h)}" })
+      else if op == "apiffi" then
+        (st, { model := s!"i={intersectionG F.mleIter a.h b.h} s={fbits (similarityG F.mleIter a.h b.h)} c={fbits (containmentG F.mleIter a.h b.h)}" })
+      else if op == "freshj" then (st, { model := "same", spec := "same" })
       else if op == "consist" then
         -- in the model the four answers are functions of one triple by definition (Theorems/C18, T-consistent)
         (st, { model := "consistent", spec := "consistent" })
@@ -156,8 +205,8 @@ def stepC18 (st : St) (ws : List String) : St × Resp :=
       else if op == "jbound" then
         let (ti, tu) := overlap a b
         let u := t.1 + t.2.1 + t.2.2
-        let bad := (if within u tu tu a.h.p 10 1 then [] else ["union"]) ++
-                   (if within t.2.2 ti tu a.h.p 10 1 then [] else ["intersection"])
+        let bad := (if within u tu tu a.h.p (jointMult a.h.p) 1 then [] else ["union"]) ++
+                   (if within t.2.2 ti tu a.h.p (jointMult a.h.p) 1 then [] else ["intersection"])
         (st, { model := if bad.isEmpty then "within" else "outside " ++ ",".intercalate bad, spec := "within" })
       else (st, { model := "bad-op" })
     | _, _ => (st, { model := "none" })
